@@ -104,7 +104,8 @@ def _inside_grid_with_n(main_domain, domain_a, domain_b, n, params, invert, devi
     if number_inside == n:
         return grid_a
     # if the grid does not fit, scale the number of points
-    scaled_n = int(n**2 / number_inside)
+    # (if no point was valid, try a finer grid before random points are added)
+    scaled_n = int(n**2 / number_inside) if number_inside > 0 else 10 * n
     grid_a = domain_a.sample_grid(n=scaled_n, params=params, device=device)
     _, repeat_params = main_domain._repeat_params(scaled_n, params)
     index_valid = _check_in_b(domain_b, repeat_params, invert, grid_a)
@@ -234,6 +235,9 @@ def _boundary_grid_with_n(main_domain, domain_a, domain_b, n, params, device):
     sum_of_correct = a_correct + b_correct
     if sum_of_correct == n:
         return grid_a[on_bound_a,] | grid_b[on_bound_b,]
+    if sum_of_correct == 0:
+        # no information to rescale the grids, use random points
+        return _random_points_boundary(main_domain, domain_a, domain_b, n, params, device)
     # scale the n so that more or fewer points are sampled and try again
     # to get a better grid. For the scaling we approximate the volume of the
     # the main domain.
